@@ -15,7 +15,7 @@
    a text that denotes a different tree or none; such trees are outside the property. *)
 From GV Require Import Base.Prelude Lang.Lexer Lang.LexerProps Lang.BlockString Lang.BlockStringProps
   Lang.StripBlock Lang.Strip Lang.StripProps Lang.Ast Lang.Parser Lang.Unparse Lang.Wf Lang.Printer
-  Lang.PrinterProps Lang.ParserProps Lang.UnparseProps Properties.ParserThms.
+  Lang.PrinterProps Lang.PrinterParsed Lang.PrinterCoord Lang.ParserProps Lang.WfProps Lang.UnparseProps Properties.ParserThms.
 
 (* the printed text lexes, and its significant tokens are exactly the token-level unparse of the tree:
    this replaces the re-lex correspondence between tokens_of and print_ast by a proof *)
@@ -64,6 +64,46 @@ Proof.
 Qed.
 Print Assumptions C08_print_fixed_point.
 
+(* schema coordinates (their own lexer: names and . ( ) : @, nothing ignored) *)
+Theorem C08_print_parse_roundtrip_coordinate : forall o x,
+  max_tokens o = None -> wf_coordinate x -> lex_ok x ->
+  parse_text ECoordinate o (pp x) = Ok (x, length (tokens_of x)).
+Proof.
+  intros o x Hm W Hok. destruct (print_coordinate_tokens x W Hok) as (ts & E & Hs).
+  unfold parse_text. rewrite E. cbn [obind].
+  exact (parse_entry_roundtrip ECoordinate o ts x [] Hm W Hs).
+Qed.
+Print Assumptions C08_print_parse_roundtrip_coordinate.
+
+(* the side conditions are no restriction on parsed trees: whatever the parser returns for a source text of
+   Unicode scalar values is well formed (C08_parser_output_wf) and satisfies lex_ok *)
+Theorem C08_parsed_lex_ok : forall e o s x c,
+  e <> ECoordinate -> Forall (fun ch => is_scalar ch = true) s -> parse_text e o s = Ok (x, c) -> lex_ok x.
+Proof.
+  intros e o s x c He Hs H. pose proof (lex_total s) as T.
+  destruct (lex s) as [ts|q| |] eqn:El; try contradiction.
+  - rewrite (parse_text_lex e o s ts He El) in H.
+    exact (parse_entry_lex_ok e o (significant ts) x c He (lex_tok_ok s ts Hs El) H).
+  - destruct (parser_unlexable_rejected e o s q He El) as (p & Hp). congruence.
+Qed.
+Print Assumptions C08_parsed_lex_ok.
+
+(* hence parse, print, parse is the identity on every text of Unicode scalar values that parses
+   (whatever the token limit of the first parse), and printing the re-parsed tree gives the same text *)
+Theorem C08_parse_print_parse : forall e o s x c,
+  e <> ECoordinate -> Forall (fun ch => is_scalar ch = true) s -> parse_text e o s = Ok (x, c) ->
+  parse_text e (with_max o None) (pp x) = Ok (x, length (tokens_of x)).
+Proof.
+  intros e o s x c He Hs H.
+  assert (Hok : lex_ok x) by (eapply C08_parsed_lex_ok; eauto).
+  assert (W : wf_ast e (exp_fragment_arguments o) (exp_directives_on_directive_definitions o) x).
+  { pose proof (lex_total s) as T. destruct (lex s) as [ts|q| |] eqn:El; try contradiction.
+    - rewrite (parse_text_lex e o s ts He El) in H. exact (parse_entry_wf e o _ x c H).
+    - destruct (parser_unlexable_rejected e o s q He El) as (p & Hp). congruence. }
+  exact (C08_print_parse_roundtrip e (with_max o None) x He eq_refl W Hok).
+Qed.
+Print Assumptions C08_parse_print_parse.
+
 (* the printed text of a document never uses the query short form where it would be read as the
    continuation of the previous definition: instance with a type definition without fields *)
 Example C08_print_example :
@@ -78,5 +118,7 @@ Example C08_print_example :
   parse_text EDocument (mkOpts None false false) (pp d) = Ok (d, length (tokens_of d)).
 Proof.
   cbv zeta. split; [|split; vm_compute; reflexivity].
-  repeat constructor.
+  apply wf_document_intro.
+  - apply wf_def_type_system, wf_object_def; repeat constructor.
+  - constructor; [|constructor]. apply wf_def_operation. constructor; repeat constructor.
 Qed.
